@@ -229,6 +229,22 @@ def outcome1(ctx: Ctx, chk) -> None:
                     if not ev or len(set(ev)) != 1 or (ev[0] != "park" and len(ev) != 1):
                         bad = (p, ev)
                         break
+                # what is parked is the message being sent (or a copy of it): `D[k] = D.pop(k, message)` keeps the
+                # entry that was already there and drops the new message although send returns normally
+                from ..prov import Canon
+
+                cn_ = Canon(ctx.I, f)
+                for attr in sb.BUFFERS:
+                    for st_, k_, v_ in sb.store_sites(ctx, f, attr):
+                        if v_ is None or not isinstance(st_, ast.Assign):
+                            continue  # setdefault / update forms: judged by BUFFER-ONCE and C09's in-place rule
+                        chk.instance(rule)
+                        cv = cn_.canon(v_)
+                        kk = f"{f.fq}::parks::{norm(st_)[:70]}"
+                        if sb.is_message_or_copy(cv):
+                            chk.ok(rule, kk, "the message being sent is what is parked", ctx.loc(f, st_), sample=False)
+                        else:
+                            chk.refute(rule, kk, f"`{norm(st_)[:80]}` parks `{cv[:60]}`, which is not (always) the message being sent: when it evaluates to an entry that was already parked, the new message is neither written nor held although send returns normally - silently discarded", ctx.loc(f, st_))
                 key = f"{f.fq}::one-outcome"
                 if bad is None and paths:
                     chk.ok(rule, key, f"{len(paths)} path(s), each writes or parks exactly once", f.where, sample=len(done) <= 2)
